@@ -29,6 +29,7 @@ type docSpec struct {
 	incr     int // number of hand-made incremental updates (/Prev chain)
 	badFont  bool // a Type1 font dictionary whose /FontFile is not a font (F7)
 	inherit  bool // nested /Pages nodes with inheritable attributes
+	dct      bool // an image XObject with /DCTDecode data
 }
 
 func mustNil(err error) {
@@ -123,6 +124,16 @@ func makeDoc(sp docSpec) []byte {
 		ws.Write(bytes.Repeat([]byte("xy"), 300))
 		mustNil(ws.Close())
 	}
+	if sp.dct {
+		ir := w.Alloc()
+		ws, err := w.OpenStream(ir, pdf.Dict{
+			"Type": pdf.Name("XObject"), "Subtype": pdf.Name("Image"), "Width": pdf.Integer(96), "Height": pdf.Integer(64),
+			"ColorSpace": pdf.Name("DeviceRGB"), "BitsPerComponent": pdf.Integer(8), "Filter": pdf.Name("DCTDecode"),
+		})
+		mustNil(err)
+		ws.Write(jpegBytes())
+		mustNil(ws.Close())
+	}
 	if sp.badFont {
 		// a Type 1 font dictionary whose font program is not a font
 		ff := w.Alloc()
@@ -205,10 +216,10 @@ func findTrailerRef(d []byte, key string) string {
 // baseDocs returns the valid documents the mutants are derived from.
 func baseDocs() [][]byte {
 	specs := []docSpec{
-		{version: pdf.V1_7, pages: 6, fonts: 3, outline: true, names: true, extra: 5, lzw: true},
+		{version: pdf.V1_7, pages: 6, fonts: 3, outline: true, names: true, extra: 5, lzw: true, dct: true},
 		{version: pdf.V1_4, human: true, pages: 5, fonts: 1, outline: true, extra: 3, lzw: true, incr: 2},
 		{version: pdf.V2_0, pages: 20, fonts: 2, names: true, extra: 8},
-		{version: pdf.V1_7, pages: 3, fonts: 1, badFont: true, extra: 2, incr: 1},
+		{version: pdf.V1_7, pages: 3, fonts: 1, badFont: true, extra: 2, incr: 1, dct: true},
 		{version: pdf.V1_5, human: true, pages: 40, fonts: 0, outline: true},
 	}
 	var res [][]byte
